@@ -129,12 +129,24 @@ func (n *Node) Execute(ctx context.Context) error {
 	if err != nil {
 		return err
 	}
-	n.SetError(cmd.Run())
+	// The captured output is read while the command runs: a pipe holds only
+	// 64 KiB, and a command that prints more would block forever if nobody
+	// read it before Run() returned.
+	var buf bytes.Buffer
+	var captured chan struct{}
 	if n.outputReader != nil && n.data.Step.Output != "" {
+		captured = make(chan struct{})
+		go func(r io.Reader) {
+			defer close(captured)
+			// TODO: Error handling
+			_, _ = io.Copy(&buf, r)
+		}(n.outputReader)
+	}
+	n.SetError(cmd.Run())
+	if captured != nil {
 		util.LogErr("close pipe writer", n.outputWriter.Close())
-		var buf bytes.Buffer
-		// TODO: Error handling
-		_, _ = io.Copy(&buf, n.outputReader)
+		<-captured
+		util.LogErr("close pipe reader", n.outputReader.Close())
 		ret := strings.TrimSpace(buf.String())
 		_ = os.Setenv(n.data.Step.Output, ret)
 		n.data.Step.OutputVariables.Store(
